@@ -27,8 +27,20 @@ func goSourceLineLoops(c *Ctx, rule string) {
 	fds := allFuncDecls(pp)
 	// interprocedural: functions whose results carry Go source text
 	returnsSource := map[types.Object]bool{}
+	paramSource := map[types.Object]bool{} // parameters that some call in the package hands Go source text
+	declOf := map[types.Object]*ast.FuncDecl{}
+	for _, fd := range fds {
+		declOf[info.Defs[fd.Name]] = fd
+	}
 	taintOf := func(fd *ast.FuncDecl) map[types.Object]bool {
 		tainted := map[types.Object]bool{}
+		for _, prm := range fd.Type.Params.List {
+			for _, nm := range prm.Names {
+				if ob := info.Defs[nm]; ob != nil && paramSource[ob] {
+					tainted[ob] = true
+				}
+			}
+		}
 		var has func(e ast.Node) bool
 		has = func(e ast.Node) bool {
 			found := false
@@ -111,6 +123,50 @@ func goSourceLineLoops(c *Ctx, rule string) {
 		for _, fd := range fds {
 			t := taintOf(fd)
 			ob := info.Defs[fd.Name]
+			// arguments: what this function hands to the package's other functions
+			ast.Inspect(fd.Body, func(x ast.Node) bool {
+				call, ok := x.(*ast.CallExpr)
+				if !ok || call.Ellipsis.IsValid() {
+					return true
+				}
+				callee := declOf[calleeOf(info, call)]
+				if callee == nil {
+					return true
+				}
+				var prms []types.Object
+				for _, prm := range callee.Type.Params.List {
+					for _, nm := range prm.Names {
+						prms = append(prms, info.Defs[nm])
+					}
+				}
+				if len(prms) != len(call.Args) {
+					return true
+				}
+				for i, a := range call.Args {
+					carries := false
+					ast.Inspect(a, func(y ast.Node) bool {
+						switch y := y.(type) {
+						case *ast.SelectorExpr:
+							if isSourceSel(y) {
+								carries = true
+							}
+						case *ast.Ident:
+							if o := info.ObjectOf(y); o != nil && t[o] {
+								carries = true
+							}
+						case *ast.CallExpr:
+							if fn := calleeOf(info, y); fn != nil && returnsSource[fn] {
+								carries = true
+							}
+						}
+						return true
+					})
+					if carries && prms[i] != nil {
+						paramSource[prms[i]] = true
+					}
+				}
+				return true
+			})
 			ast.Inspect(fd.Body, func(x ast.Node) bool {
 				if _, ok := x.(*ast.FuncLit); ok {
 					return false
